@@ -707,6 +707,9 @@ def depends(rep, repo):
     from checks import c07, c08
     c07.schedule_rules(rep, repo)
     c08.map_rules(rep, repo)
+    # the op list is built from Circuit.topological_order(): its traversal rules (C17) are part of this check
+    from checks import c17
+    c17.order_rules(rep, repo)
     # every signal must have an op that evaluates it from the right operands (interface BUF1/INV1 ops included)
     from checks import c01
     from kvstatic import simops
